@@ -168,6 +168,7 @@ type ListLevel struct {
 	Number bool   // text:list-level-style-number (else bullet)
 	Format string // num-format, default "1"
 	Char   string // bullet char, default "•"
+	Start  int    // text:start-value of a number level; 0 = attribute omitted (1)
 }
 
 // ListStyle is text:list-style.
@@ -403,7 +404,11 @@ func writeStyles(b *strings.Builder, st []Style, ls []ListStyle) {
 				if f == "" {
 					f = "1"
 				}
-				fmt.Fprintf(b, `<text:list-level-style-number text:level="%d" style:num-suffix="." style:num-format="%s"/>`, i+1, esc(f))
+				fmt.Fprintf(b, `<text:list-level-style-number text:level="%d" style:num-suffix="." style:num-format="%s"`, i+1, esc(f))
+				if lv.Start > 0 {
+					fmt.Fprintf(b, ` text:start-value="%d"`, lv.Start)
+				}
+				b.WriteString(`/>`)
 			} else {
 				c := lv.Char
 				if c == "" {
